@@ -660,7 +660,7 @@ def install(reg):
              piece_roots(P ++ D) == piece_roots(P) ++ [ mroot(leaves(D) ++ zero_digests(npad)) ]
         for the padding count npad that _valid_padding allows (it is unique: L4, two powers of two in [n, 2n) are equal).
         Alignment of P is stated with its witness k (len P == k * piece length): no modulus by a symbolic value"""
-        p.engine.assumption('spec function piece_roots: defined by ground unfolding (proots_step); the padding count is unique by L4 (two powers of two in [n, 2n) are equal) -- not machine-checked')
+        p.engine.assumption('spec function piece_roots: defined by ground unfolding (proots_step); the padding count is unique by L4 (two powers of two in [n, 2n) are equal; lemmas/Lemmas.lean L4_pow2_unique)')
         f = p.engine.uf("piece_roots", BYTES, I, PVSEQ)
         lv = p.engine.uf("leaves", BYTES, PVSEQ)
         Pt, Dt, n, a, kt = p.bytes_term(P_), p.bytes_term(D_), p.as_int(npad), p.as_int(amount), p.as_int(k)
